@@ -27,9 +27,10 @@ def parse_trace(path):
                 if t[0] == "OP":
                     n = int(t[3])
                     step = {"line": " ".join(t[:-2]), "conn": int(t[1]), "name": t[2], "args": t[4:4 + n] if n else [],
-                            "reply": rhs.split(), "dump": {}, "x": None}
+                            "reply": rhs.split(), "dump": {}, "x": None, "t0": int(t[-2]), "t1": int(t[-1])}
                 else:
-                    step = {"line": " ".join(t[:-2]), "conn": -1, "name": "X:" + t[1], "args": [], "reply": rhs.split(), "dump": {}, "x": t[1]}
+                    step = {"line": " ".join(t[:-2]), "conn": -1, "name": "X:" + t[1], "args": [], "reply": rhs.split(), "dump": {}, "x": t[1],
+                            "t0": int(t[-2]), "t1": int(t[-1])}
                 cur["steps"].append(step)
             elif step is not None and line.startswith("K "):
                 t = line.split()
